@@ -218,6 +218,16 @@ func (h *h2Hist) do(line string, act func()) {
 		h.vt.Stat("silent." + kind)
 	}
 	h.vt.Stat("op." + kind)
+	// C15 monitor: the sockets opened while searching for an even port belong to no allocation and must be closed again
+	for _, pc := range h.w.probes {
+		select {
+		case <-pc.closed:
+		default:
+			h.vt.Alarm("even-port-probe-left-open", "probe socket %s still open after %s", pc.addr, line[:min(len(line), 80)])
+		}
+	}
+	h.w.probes = nil
+	h.w.oddProbes = 0
 	h.vt.Op("state")
 	h.vt.Obs("%s", h.w.stateLine(h.keys))
 }
@@ -407,6 +417,7 @@ func (h *h2Hist) opAllocate(c *h2Client, retransmit bool) {
 	h.w.quotaAns = h.rng.Intn(40) != 0
 	h.nextEven += 2
 	h.w.evenPort = h.nextEven
+	h.w.oddProbes = h.rng.Intn(3)
 	evS := fmt.Sprint(h.nextEven)
 	if h.rng.Intn(20) == 0 {
 		h.w.evenPort = 0
@@ -1033,7 +1044,11 @@ func runH2History(t *testing.T, vt *vhT, seed int64, nOps int) {
 					h.opConnect(c)
 				}
 			case r < 87:
-				h.opConnBind()
+				if h.tcpMode && rng.Intn(4) == 0 {
+					h.opForeignBind()
+				} else {
+					h.opConnBind()
+				}
 			case r < 89:
 				h.opPeerConn()
 			case r < 91:
